@@ -63,7 +63,7 @@ class C14:
             if rej != want:
                 bad = (dv, hv, rej)
         first_raise = min((r.idx for r in s.raises), default=10 ** 9)
-        before_loop = all(r.idx < y.idx and not r.loops for r in s.raises) and len(s.raises) >= 2
+        before_loop = all(r.idx < y.idx and not r.loops for r in s.raises) and len(s.raises) >= 1
         if bad is None and before_loop:
             ctx.ok("R14.1", site, "non-positive duration / hop rejected before the loop; hop defaults to duration")
         elif bad is not None:
